@@ -761,8 +761,8 @@ Proof.
   - unfold infer_year in I. destruct cur as [[cy cm] cd]. cbn [fst] in *.
     rewrite boost_roundtrip in I by exact V. rewrite mk_date_ok in I by assumption.
     destruct (cm <? m).
-    + unfold minus_one_year in I. destruct (add_years _ _) as [[y2 m2] d2].
-      apply mk_date_inv in I as [V2 [Hy2 ->]]. exists y2, m2, d2. rewrite boost_roundtrip by exact V2. tauto.
+    + unfold minus_one_year in I. rewrite boost_roundtrip in I by exact V.
+      apply mk_date_inv in I as [V2 [Hy2 ->]]. exists (cy - 1), m, d. rewrite boost_roundtrip by exact V2. tauto.
     + injection I as <-. exists cy, m, d. rewrite boost_roundtrip by exact V. tauto.
 Qed.
 
@@ -854,48 +854,48 @@ Proof.
   rewrite mk_date_ok by assumption. destruct (Z.ltb_spec cm m); [lia|]. reflexivity.
 Qed.
 
-Lemma days_in_month_prev_year y m : days_in_month y m - 1 <= days_in_month (y - 1) m.
+(* the complete rule: the current year, or - when the month is after the current month - the
+   same month and day of the previous year, built by the date constructor *)
+Lemma infer_year_spec cy cm cd m d :
+  valid_ymd cy m d -> 1400 <= cy <= 9999 ->
+  infer_year (cy, cm, cd) (boost_day_number cy m d) =
+  if cm <? m then mk_date (cy - 1) m d else DOk (boost_day_number cy m d).
 Proof.
-  unfold days_in_month. destruct (m =? 2); [destruct (is_leap y), (is_leap (y - 1)); lia|].
-  destruct ((m =? 4) || (m =? 6) || (m =? 9) || (m =? 11)); lia.
-Qed.
-
-Lemma add_years_minus1 y m d : 1 <= m <= 12 ->
-  add_years (y, m, d) (-1) =
-  (y - 1, m, if d =? days_in_month y m then days_in_month (y - 1) m else Z.min d (days_in_month (y - 1) m)).
-Proof.
-  intros Hm. unfold add_years, add_months.
-  replace ((m - 1 + 12 * -1) / 12) with (-1) by (Z.div_mod_to_equations; lia).
-  replace ((m - 1 + 12 * -1) mod 12 + 1) with m by (Z.div_mod_to_equations; lia).
-  replace (y + -1) with (y - 1) by ring. reflexivity.
+  intros V Hy. unfold infer_year. rewrite boost_roundtrip by exact V.
+  rewrite mk_date_ok by assumption. destruct (cm <? m); [|reflexivity].
+  unfold minus_one_year. rewrite boost_roundtrip by exact V. reflexivity.
 Qed.
 
 Lemma infer_prev_year cy cm cd m d :
-  valid_ymd cy m d -> 1401 <= cy <= 9999 -> cm < m -> d <> days_in_month cy m ->
+  valid_ymd cy m d -> valid_ymd (cy - 1) m d -> 1401 <= cy <= 9999 -> cm < m ->
   infer_year (cy, cm, cd) (boost_day_number cy m d) = DOk (boost_day_number (cy - 1) m d).
 Proof.
-  intros V Hy Hm Hd. unfold infer_year. rewrite boost_roundtrip by exact V.
-  rewrite mk_date_ok by (assumption || lia). destruct (Z.ltb_spec cm m); [|lia].
-  unfold minus_one_year. rewrite boost_roundtrip by exact V. destruct V as [Vm Vd].
-  rewrite add_years_minus1 by exact Vm. destruct (Z.eqb_spec d (days_in_month cy m)); [contradiction|].
-  pose proof (days_in_month_prev_year cy m). rewrite Z.min_l by lia.
-  apply mk_date_ok; [split; lia | lia].
+  intros V V' Hy Hm. rewrite infer_year_spec by (assumption || lia).
+  destruct (Z.ltb_spec cm m); [|lia]. apply mk_date_ok; [exact V' | lia].
 Qed.
 
-(* a last-day-of-month date lands on the last day of that month one year earlier: for
-   28 February this is the 29th when the previous year is a leap year *)
-Lemma infer_prev_year_last_day cy cm cd m :
-  1 <= m <= 12 -> 1401 <= cy <= 9999 -> cm < m ->
-  infer_year (cy, cm, cd) (boost_day_number cy m (days_in_month cy m)) =
-  DOk (boost_day_number (cy - 1) m (days_in_month (cy - 1) m)).
+(* every day but 29 February exists in the previous year as well *)
+Lemma valid_prev_year y m d : valid_ymd y m d -> (m, d) <> (2, 29) -> valid_ymd (y - 1) m d.
 Proof.
-  intros Vm Hy Hm. pose proof (days_in_month_range cy m). pose proof (days_in_month_range (cy - 1) m).
-  assert (V : valid_ymd cy m (days_in_month cy m)) by (split; lia).
-  unfold infer_year. rewrite boost_roundtrip by exact V.
-  rewrite mk_date_ok by (assumption || lia). destruct (Z.ltb_spec cm m); [|lia].
-  unfold minus_one_year. rewrite boost_roundtrip by exact V.
-  rewrite add_years_minus1 by exact Vm. rewrite Z.eqb_refl.
-  apply mk_date_ok; [split; lia | lia].
+  intros [Vm Vd] N. split; [exact Vm|]. revert Vd N. unfold days_in_month.
+  destruct (Z.eqb_spec m 2) as [->|]; [|tauto].
+  destruct (is_leap y), (is_leap (y - 1)); intros Vd N; try lia;
+    (destruct (Z.eq_dec d 29) as [->|]; [exfalso; apply N; reflexivity | lia]).
+Qed.
+
+(* 29 February written without a year after the current month: the current year must be a leap
+   year for the first construction to succeed, so the previous year is not: an error *)
+Lemma infer_prev_year_feb29 cy cm cd :
+  valid_ymd cy 2 29 -> 1401 <= cy <= 9999 -> cm < 2 ->
+  infer_year (cy, cm, cd) (boost_day_number cy 2 29) = DErr DBadDay.
+Proof.
+  intros V Hy Hm. rewrite infer_year_spec by (assumption || lia).
+  destruct (Z.ltb_spec cm 2); [|lia]. destruct V as [_ Vd]. unfold days_in_month in Vd. cbn [Z.eqb Pos.eqb] in Vd.
+  destruct (is_leap_cases cy) as [[L A]|[L A]]; rewrite L in Vd; [|lia].
+  assert (L' : is_leap (cy - 1) = false).
+  { destruct (is_leap_cases (cy - 1)) as [[L' A']|[L' A']]; [|exact L']. exfalso. Z.div_mod_to_equations. lia. }
+  unfold mk_date, boost_min_year, boost_max_year, days_in_month. rewrite L'.
+  destruct (Z.ltb_spec (cy - 1) 1400); [lia|]. destruct (Z.ltb_spec 9999 (cy - 1)); [lia|]. reflexivity.
 Qed.
 
 (* ------------------------------------------------------------------ D: weekday and order of read dates *)
@@ -971,6 +971,47 @@ Proof.
   rewrite infer_same_year by (try split; lia). reflexivity.
 Qed.
 
+
+(* MM/DD read forward, whatever the current month *)
+Lemma parse_md_spelled_any cy cm cd m d zm zd s1 :
+  valid_ymd cy m d -> 1400 <= cy <= 9999 -> is_sep s1 ->
+  parse_date [] (cy, cm, cd) (spell_md_sep m d zm zd s1) =
+  if cm <? m then mk_date (cy - 1) m d else DOk (boost_day_number cy m d).
+Proof.
+  intros V Hy H1. pose proof (days_in_month_range cy m) as Hr. destruct V as [Vm Vd].
+  unfold parse_date, readers_for, conv_for, src_input_format_pushes_front, src_convert_separators_default.
+  cbn [rev map app]. rewrite default_readers_eq. cbn [parse_mask].
+  unfold parse_routine at 1.
+  assert (L : (src_max_date_len <? Z.of_nat (length (spell_md_sep m d zm zd s1))) = false).
+  { apply Z.ltb_ge. pose proof (spell_md_length m d zm zd s1). unfold src_max_date_len. lia. }
+  rewrite L. rewrite norm_spell_md by (assumption || lia).
+  replace (r_items R_md) with I_md by reflexivity.
+  rewrite strptime_md_spell by lia. cbn [tm_year tm_mon tm_mday fst].
+  replace (cy - 1900 + 1900) with cy by ring. replace (m - 1 + 1) with m by ring.
+  rewrite mk_date_ok by (try split; lia). rewrite format_dn_md by (split; lia).
+  unfold spell_md. change (field true m) with (digits2 m). change (field true d) with (digits2 d).
+  rewrite cmp_field by lia. rewrite (cmp_same_prefix [47]).
+  rewrite <- (app_nil_r (digits2 d)), <- (app_nil_r (field zd d)). rewrite cmp_field by lia.
+  cbn [cmp_skip0 negb]. replace (has_year (r_raw R_md)) with false by reflexivity.
+  rewrite infer_year_spec by (try split; lia).
+  destruct (cm <? m); [|reflexivity]. destruct (mk_date (cy - 1) m d); reflexivity.
+Qed.
+
+(* a year-less MM/DD that is accepted denotes exactly that month and day, in the current or the
+   previous year *)
+Lemma md_exact_day cy cm cd m d zm zd s1 dn :
+  valid_ymd cy m d -> 1400 <= cy <= 9999 -> is_sep s1 ->
+  parse_date [] (cy, cm, cd) (spell_md_sep m d zm zd s1) = DOk dn ->
+  exists y, boost_from_day_number dn = (y, m, d) /\ valid_ymd y m d /\
+            ((y = cy /\ m <= cm) \/ (y = cy - 1 /\ cm < m)).
+Proof.
+  intros V Hy H1. rewrite parse_md_spelled_any by assumption.
+  destruct (Z.ltb_spec cm m) as [Lt|Ge].
+  - intros H. apply mk_date_inv in H as [V' [_ ->]]. exists (cy - 1).
+    rewrite boost_roundtrip by exact V'. split; [reflexivity|]. split; [exact V' | right; split; [reflexivity | exact Lt]].
+  - intros H. injection H as <-. exists cy. rewrite boost_roundtrip by exact V.
+    split; [reflexivity|]. split; [exact V | left; split; [reflexivity | exact Ge]].
+Qed.
 
 (* ------------------------------------------------------------------ F: a user-supplied --input-date-format over
    %Y %m %d %% and literal characters reads back what the same format prints *)
